@@ -636,7 +636,14 @@ func main() {
 	tier := flag.String("tier", "quick", "")
 	out := flag.String("out", "", "")
 	replay := flag.String("replay", "", "")
+	deep := flag.Int("deep", 0, "child mode: nesting depth of the deep-nesting probe")
+	deepTarget := flag.String("deep-target", "ParseQuery", "")
+	deepShape := flag.String("deep-shape", "paren", "")
 	flag.Parse()
+	if *deep > 0 {
+		deepChild(*deep, *deepTarget, *deepShape)
+		return
+	}
 	if *out == "" {
 		fmt.Fprintln(os.Stderr, "need -out")
 		os.Exit(2)
@@ -721,9 +728,13 @@ func main() {
 	// (f3) range filters: the stored bounds are the terms of the plain literals of the same written
 	// values (case folding, escapes, quote styles, wildcard ends), both case modes
 	rangeCases(w, r, nRound/2)
-	// (g) raw-string totality fuzz of the parsers that have no byte-level model (legacy ParseQuery,
-	// ParseAggregationFilter) and of ParseSeqQL under every mapping
+	// (g) raw-string totality fuzz of all three entry points under every mapping (outcome only)
 	fuzz(w, r, nFuzz)
+	// (h) stage 3: raw strings through the real legacy ParseQuery / ParseAggregationFilter against
+	// the rune-level model of Legacy.v (outcome and full AST with its tokens)
+	legacyCases(w, r, *tier)
+	// (i) nesting depth far beyond anything evaluated in Coq, in a child process
+	deepProbe(w, 3000000)
 	if err := w.Close(); err != nil {
 		panic(err)
 	}
